@@ -25,7 +25,7 @@ RULE = (
     "10^[-12,0] * scale, root p/q with p,q <= 10 or an exponent-multiplier value, float32/float64, solver {Eigen, Eigen(enhance_stability), CoupledNewton, "
     "CoupledHigherOrder(order 2-4)}). Non-trivial = n >= 2, non-diagonal input and accuracy bound < 0.1 (informative). Distinct = canonical JSON."
 )
-BOUNDS = "n <= 32 (quick) / 128 (thorough); mpmath reference for float64 with n <= 16"
+BOUNDS = "n <= 32 (quick) / 128 (thorough); roots p/q with p, q <= 30; scales 1e-6..1e6 (the property's range); mpmath reference for float64 with n <= 16"
 TOLERANCES = "relative 2-norm error <= 16*n*u*kappa*max(1,1/r) + 2*n*tol_solver + (2/r)*2^-24*max|ln(lambda+eps)| + 4u; uninformative (not asserted) when >= 0.1"
 ASSUMPTIONS = ["float64 torch.linalg.eigh / mpmath.eigsy give the spectral decomposition of the input to their working precision"]
 NONTRIVIAL_FLOOR = 100
